@@ -355,6 +355,7 @@ struct TextResult {
 trait TypeDyn: Sync + Send {
     fn name(&self) -> &'static str;
     fn covers(&self) -> &'static str;
+    fn is_wrapper(&self) -> bool;
     fn count(&self) -> usize;
     fn describe(&self, i: usize) -> String;
     fn value(&self, i: usize) -> Value;
@@ -411,6 +412,9 @@ impl<T: Battery> TypeDyn for Holder<T> {
     }
     fn covers(&self) -> &'static str {
         self.covers
+    }
+    fn is_wrapper(&self) -> bool {
+        T::WRAPPER
     }
     fn count(&self) -> usize {
         self.inst.len()
@@ -495,8 +499,31 @@ impl<T: Battery> TypeDyn for Holder<T> {
                     }
                 }
                 if !bad.is_empty() {
+                    // Is the printed text itself unfaithful on the model level (print, parse as
+                    // Value, compare with as_value)? Then the failure belongs to the printer /
+                    // parser pair (property C09) and is identified by the kind of damage, not by
+                    // the battery type that happened to expose it.
+                    let fidelity: Option<String> = {
+                        let s = &bad[0].1;
+                        match from_parse(guard(|| parse_recognize::<Value>(s.as_str(), false))) {
+                            Out::Ok(pv) => canon::first_difference(&canon::canon(&pv), &canon::canon(&v)).map(|d| {
+                                let leaf = d.rsplit('/').next().unwrap_or("").to_string();
+                                let leaf: String = leaf.split('(').next().unwrap_or("").to_string();
+                                format!("reparsed_value_differs:{}", leaf)
+                            }),
+                            ow => Some(format!("reparse_as_value:{}", ow.class())),
+                        }
+                    };
                     let all_same = bad.len() == texts.len() && bad.iter().all(|b| b.2 == bad[0].2);
-                    if all_same {
+                    if let Some(f) = fidelity {
+                        sink.report(
+                            "recon",
+                            format!("law=recon_print_then_parse_faithful_on_model (C09 domain) damage={}", f),
+                            size,
+                            &tie,
+                            base("recon_print_then_parse_faithful_on_model", json!({"text": bad[0].1, "got": bad[0].3, "model": format!("{:?}", v)})),
+                        );
+                    } else if all_same {
                         sink.report(
                             "recon",
                             format!("type={} law=recon_roundtrip printer=any got={}", self.name, bad[0].2),
@@ -604,10 +631,18 @@ impl<T: Battery> TypeDyn for Holder<T> {
             match &r {
                 Out::Err(..) => {}
                 ow => {
-                    let got = if ow.is_ok() { "Ok".to_string() } else { "PANIC".to_string() };
+                    // a panic on truncated input is a property of the reader, not of the type:
+                    // identified by the panic message
+                    let sig = match ow {
+                        Out::Panic(msg) => {
+                            let head: String = msg.chars().take_while(|c| !c.is_ascii_digit() && *c != ':').collect();
+                            format!("law=msgpack_truncated_input_rejected got=PANIC({})", head.trim())
+                        }
+                        _ => format!("type={} law=msgpack_truncated_input_rejected got=Ok", self.name),
+                    };
                     sink.report(
                         "msgpack",
-                        format!("type={} law=msgpack_truncated_input_rejected got={}", self.name, got),
+                        sig,
                         size * 1000 + k,
                         &tie,
                         base("msgpack_truncated_input_rejected", json!({"bytes": hex(&bytes), "prefix_len": k, "got": r.show()})),
@@ -924,6 +959,9 @@ fn main() {
     let n_double = if thorough { 60usize } else { 0usize };
     let n_subst = if thorough { usize::MAX } else { 30usize };
     let n_single = if thorough { usize::MAX } else { 60usize };
+    // wrapper types (Multi / Places / Bodies of every derived type): large instances, edited
+    // singly only
+    let n_single_wrapper = if thorough { usize::MAX } else { 4usize };
     let n_foreign = 40usize;
     let wall_cap_s = if thorough { 720.0 } else { 45.0 };
     let seen = Seen::new();
@@ -977,7 +1015,8 @@ fn main() {
                 for (k, s) in t.printed(i).iter().enumerate() {
                     eval_text(ti, s, true, &|| format!("printed form {} of instance {}", k, t.describe(i)));
                 }
-                if i >= n_single {
+                let wrapper = t.is_wrapper();
+                if i >= if wrapper { n_single_wrapper } else { n_single } {
                     items_done.fetch_add(1, Ordering::Relaxed);
                     return;
                 }
@@ -993,10 +1032,10 @@ fn main() {
                         eval_bytes(ti, &bytes, &|| format!("Value edit {} of instance {}", op, t.describe(i)));
                     }
                 }
-                for (op, s) in mutate::token_mutations(t.compact(i), i < n_subst) {
+                for (op, s) in mutate::token_mutations(t.compact(i), i < n_subst && !wrapper) {
                     eval_text(ti, &s, false, &|| format!("token edit {} of {}", op, t.compact(i)));
                 }
-                if i < n_double {
+                if i < n_double && !wrapper {
                     for (op1, mv) in &singles {
                         for (op2, mv2) in mutate::value_mutations(mv, 1) {
                             if let Ok(s) = guard(|| format!("{}", print_recon_compact(&mv2))) {
@@ -1041,7 +1080,7 @@ fn main() {
         samples: text_samples,
         exhaustive: skipped == 0,
         bounds: json!({"types": ntypes, "instances": total_inst, "double_edit_instances_per_type": n_double, "foreign_instances_per_type": n_foreign,
-                       "token_substitution_instances_per_type": n_subst.min(cap), "single_edit_instances_per_type": n_single.min(cap), "value_edit_depth": 2, "work_items_done": items_done.load(Ordering::Relaxed), "work_items_skipped_by_wall_cap": skipped,
+                       "token_substitution_instances_per_type": n_subst.min(cap), "single_edit_instances_per_type": n_single.min(cap), "single_edit_instances_per_wrapper_type": n_single_wrapper.min(cap), "wrapper_types": "no token substitution, no double edits", "value_edit_depth": 2, "work_items_done": items_done.load(Ordering::Relaxed), "work_items_skipped_by_wall_cap": skipped,
                        "wall_cap_s": wall_cap_s, "order": "instances smallest first, interleaved over types"}),
         wall_s: wall_text * 0.7,
     });
